@@ -99,8 +99,11 @@ class PyMachine:
             elif k == "save":
                 e.save_snapshot(ev[1])
             elif k == "load":
+                import contextlib
+                import io
                 fresh = PyMachine(self.cfg)
-                fresh.emu.load_snapshot(ev[1])
+                with contextlib.redirect_stdout(io.StringIO()):   # load_snapshot prints a backend-mismatch note for Rust bundles
+                    fresh.emu.load_snapshot(ev[1])
                 self.emu = fresh.emu
         except Exception as exc:  # noqa: BLE001
             out["err"] = f"{type(exc).__name__}: {exc}"
